@@ -15,10 +15,13 @@ import time
 VERIF = os.path.dirname(os.path.dirname(os.path.abspath(__file__)))
 REPO = os.environ.get("THEO_REPO", "/repo")
 SPEC = os.path.join(VERIF, "spec")
-BUILD = os.path.join(VERIF, "build")
-RUN = os.path.join(VERIF, "run")
-REPLAYS = os.path.join(VERIF, "replays")
-EVIDENCE = os.path.join(VERIF, "evidence")
+# VERIF_SCRATCH redirects every output of a run (builds, run directories, replays, evidence) - used to try the checks on a
+# scratch copy of the repository (THEO_REPO) without disturbing /verif's own build and evidence
+_OUT = os.environ.get("VERIF_SCRATCH") or VERIF
+BUILD = os.path.join(_OUT, "build")
+RUN = os.path.join(_OUT, "run")
+REPLAYS = os.path.join(_OUT, "replays")
+EVIDENCE = os.path.join(_OUT, "evidence")
 JAVA_CP = "/opt/veriftools/tla/tla2tools.jar:/opt/veriftools/tla/CommunityModules-deps.jar"
 NCPU = os.cpu_count() or 4
 
